@@ -239,9 +239,13 @@ def merging_handlers(repo, res):
     loop = [n for n in g.body if isinstance(n, ast.For)]
     ok = False
     if len(loop) == 1:
-        sub = norm(loop[0].target)
-        txt = norm(loop[0])
-        ok = f"units.append(getattr({sub}, 'units', NULL_UNIT))" in txt and f"units.extend(get_units({sub}))" in txt and "units.append(NULL_UNIT)" in txt
+        from engine.pat import find_all
+
+        # local names are free (metavariables): the accumulator that is returned receives the unit of every array,
+        # the null unit for a bare number, and the units found by recursing into anything else
+        ok = find_all(g.node, ["__acc.append(getattr(__s, 'units', NULL_UNIT))", "__acc.extend(get_units(__s))", "__acc.append(NULL_UNIT)", "return __acc"]) is not None
+    elif not loop:
+        raise AnalysisError(f"{g.where()}: get_units is not a loop over its operands any more; the collection of units is not understood")
     res.check(ok, "get_units", g.where(), "get_units must report the unit of every array (dimensionless when it has none) and recurse into sequences", rid=r4v)
     # exception class relationship is what __eq__ etc. rely on
     exc = repo.mod("unyt/exceptions.py")
